@@ -42,6 +42,10 @@ type SysWorld struct {
 	Admin   http.Handler
 
 	Disk *Disk
+	SimStore *SimStore
+
+	// OnStore lets a world attach observers before any product code sees the store.
+	OnStore func(ss *SimStore)
 
 	storeFaults map[string]int // method -> number of calls to fail
 	armedStore  map[string]bool
@@ -52,6 +56,7 @@ type SysWorld struct {
 }
 
 type SysOptions struct {
+	OnStore   func(ss *SimStore)
 	Seed      int64
 	SimDisk   bool // SQLite on the simulated disk (crash worlds)
 	ArmPoints func(label string) bool
@@ -60,7 +65,7 @@ type SysOptions struct {
 var errInjected = errors.New("injected store fault")
 
 func NewSysWorld(spec *SysSpec, offset int64, opts SysOptions) (*SysWorld, error) {
-	w := &SysWorld{Spec: spec, Res: &Result{}, storeFaults: map[string]int{}, armedStore: map[string]bool{}, seed: opts.Seed}
+	w := &SysWorld{Spec: spec, Res: &Result{}, storeFaults: map[string]int{}, armedStore: map[string]bool{}, seed: opts.Seed, OnStore: opts.OnStore}
 	base, err := ScratchDir("sys-")
 	if err != nil {
 		return nil, err
@@ -117,7 +122,12 @@ func (w *SysWorld) startNode(dbDir string, simDisk bool) error {
 		DBPath:     w.dbPath,
 		Logger:     logger,
 		WrapStore: func(inner queue.Store) queue.Store {
-			return &SimStore{Inner: inner, Before: func(m string) error { return w.storeBefore(group, m) }, After: func(m string) { w.storeAfter(group, m) }}
+			ss := &SimStore{Inner: inner, Before: func(m string) error { return w.storeBefore(group, m) }, After: func(m string) { w.storeAfter(group, m) }}
+			if w.OnStore != nil {
+				w.OnStore(ss)
+			}
+			w.SimStore = ss
+			return ss
 		},
 		HTTPClient:   &http.Client{Transport: w.Net},
 		Resolver:     w.Net,
@@ -153,10 +163,15 @@ func (w *SysWorld) startNode(dbDir string, simDisk bool) error {
 // storeBefore is the P1 point in front of every Store method.
 func (w *SysWorld) storeBefore(group, method string) error {
 	t := w.Sched.Current()
+	route := ""
+	if strings.HasPrefix(method, "Dequeue:") {
+		route = strings.TrimPrefix(method, "Dequeue:")
+		method = "Dequeue"
+	}
 	if t == nil || t.Daemon {
 		// a goroutine the product started itself: a dispatcher worker
 		if method == "Dequeue" {
-			w.Sched.park("store.Dequeue.idle", true, true)
+			w.Sched.parkNamed("store.Dequeue.idle", "worker:"+route, true, true)
 		} else if w.Sched.IsDead(group) {
 			w.Sched.park("store."+method+".dead", true, false)
 		} else if w.armedStore[method] {
